@@ -18,7 +18,7 @@ LEVEL_TEXT = ("Exploration with a reference resolver: for requests without '..' 
               "run the file's code; the same request twice gives the same answer.")
 LEVEL_NOTE = ("Trusted: the Python resolver in this file (deepest mapped prefix, first root containing the file), unique tokens per file, the runner. "
               "Not asserted: symlinks; for requests with '..' only containment.")
-ASSUMPTIONS = ["the scratch tree is private to the worker", "requests with '..' in the unmatched remainder may resolve to the normalised target or to not-found"]
+ASSUMPTIONS = ["the scratch tree is private to the worker", "requests whose .. climbs above the virtual root or out of a mapped physical directory are only checked for containment"]
 SIZES = {"quick": dict(budget_s=45, batch=100), "thorough": dict(budget_s=600, batch=200)}
 FLOORS = {"nontrivial": 0.5, "kind_traverse": 0.2, "relinc_decided": 0.03}
 
@@ -27,6 +27,7 @@ TREE = {
     "inside2/f1.sqf": "I2F1", "inside2/g.sqf": "I2G", "inside2/sub/f2.sqf": "I2F2", "inside2/c/h.sqf": "I2H",
     "inside1/common.hpp": "I1COMMON", "inside1/sub/common.hpp": "I1SUBCOMMON", "inside1/sub/deep/common.hpp": "I1DEEPCOMMON", "inside2/common.hpp": "I2COMMON",
     "inside2/sub/common.hpp": "I2SUBCOMMON", "outside/common.hpp": "OUTCOMMON",
+    "inside1/b/x.sqf": "I1BX",
     "outside/secret.sqf": "OUTSECRET", "outside/f1.sqf": "OUTF1", "top_secret.sqf": "TOPSECRET",
 }
 MAPPINGS = [("inside1", "/a"), ("inside2", "/a"), ("inside1/sub", "/a/sub"), ("inside2", "/b/c"), ("inside1", "/"), ("inside2/c", "/a/sub/deep"), ("inside1/sub/deep", "/x")]
@@ -70,10 +71,26 @@ class Vfs:
             self.roots.append(os.path.join(base, phys))
 
     def resolve(self, segs):
-        node, i = self.root, 0
-        while i < len(segs) and segs[i] in node["children"]:
-            node = node["children"][segs[i]]
+        # lexical normalisation first: `..` takes back the segment in front of it, one that climbs above the root makes the request invalid
+        norm = []
+        for sg in segs:
+            if sg == "..":
+                if not norm:
+                    return None
+                norm.pop()
+            elif sg not in ("", "."):
+                norm.append(sg)
+        segs = norm
+        path = [self.root]
+        i = 0
+        while i < len(segs) and segs[i] in path[-1]["children"]:
+            path.append(path[-1]["children"][segs[i]])
             i += 1
+        # the deepest node on the way that is actually mapped decides (nodes in between only lead to deeper mappings)
+        while len(path) > 1 and not path[-1]["phys"]:
+            path.pop()
+            i -= 1
+        node = path[-1]
         rest = segs[i:]
         for r in node["phys"]:
             p = os.path.join(r, *rest) if rest else r
@@ -90,11 +107,11 @@ class Vfs:
 def _cases(draw):
     nm = draw(st.integers(1, 4))
     maps = draw(st.lists(st.sampled_from(MAPPINGS), min_size=nm, max_size=nm, unique=True))
-    kind = draw(st.sampled_from(["traverse", "traverse", "traverse", "traverse", "canonical", "canonical", "mutate", "mutate", "physical", "physical", "relative", "relinc", "relinc"]))
+    kind = draw(st.sampled_from(["traverse", "traverse", "traverse", "traverse", "canonical", "canonical", "mutate", "mutate", "physical", "physical", "relative", "relinc", "relinc", "dotdot", "dotdot"]))
     # canonical virtual targets: every file below every mapped prefix plus some misses
     virt_dirs = sorted({v for _p, v in maps})
     vdir = draw(st.sampled_from(virt_dirs))
-    leaf = draw(st.sampled_from(["f1.sqf", "only1.sqf", "g.sqf", "sub/f2.sqf", "sub/deep/f3.sqf", "c/h.sqf", "h.sqf", "f3.sqf", "nope.sqf", "deep/f3.sqf", "f2.sqf"]))
+    leaf = draw(st.sampled_from(["f1.sqf", "only1.sqf", "g.sqf", "sub/f2.sqf", "sub/deep/f3.sqf", "c/h.sqf", "h.sqf", "f3.sqf", "nope.sqf", "deep/f3.sqf", "f2.sqf", "b/x.sqf", "b/x.sqf"]))
     segs = [s for s in vdir.split("/") if s] + leaf.split("/")
     req = "/" + "/".join(segs)
     labs = ["kind_" + kind]
@@ -115,6 +132,21 @@ def _cases(draw):
         elif how == "trail":
             req = req + "/"
         labs.append("mut_" + how)
+    elif kind == "dotdot":
+        # `..` that stays inside the virtual tree: "<dir>/<x>/../<leaf>", "<dir>/<x>/<y>/../../<leaf>", "<dir>/<leafdir>/../<leafdir>/<file>"
+        dsegs = [s_ for s_ in vdir.split("/") if s_]
+        lsegs = leaf.split("/")
+        form = draw(st.sampled_from(["detour", "detour2", "redo"]))
+        x = draw(st.sampled_from(["sub", "deep", "c", "zz", "b"]))
+        if form == "detour":
+            segs = dsegs + [x, ".."] + lsegs
+        elif form == "detour2":
+            segs = dsegs + [x, draw(st.sampled_from(["deep", "q"])), "..", ".."] + lsegs
+        else:
+            segs = dsegs + lsegs[:-1] + ([lsegs[-2], ".."] if len(lsegs) > 1 else [x, ".."]) + lsegs[-1:]
+        req = "/" + "/".join(segs)
+        if draw(st.integers(0, 3)) == 0:
+            req = req.replace("/", "\\")
     elif kind == "traverse":
         target = draw(st.sampled_from(["outside/secret.sqf", "top_secret.sqf", "outside/f1.sqf", "inside2/g.sqf", "inside1/f1.sqf"]))
         ups = draw(st.integers(1, 6))
@@ -239,7 +271,7 @@ def check(case, env):
                     v = viol("relative-include-wrong-file|%s" % op, ctx + "the file includes %s relative to itself (%s); expected the content of %s, got %s" % (
                         incs, os.path.relpath(top, base), sorted(want), sorted(tok_path.get(t, t) for t in got) or "nothing"))
         # strong oracle (requests without '..' and with a virtual spelling)
-        if v is None and case["kind"] in ("canonical", "mutate") and ".." not in req:
+        if v is None and (case["kind"] == "dotdot" or (case["kind"] in ("canonical", "mutate") and ".." not in req)):
             segs = [s for s in req.replace("\\", "/").split("/") if s and s != "."]
             # a request without leading separator is a relative path: from an including file it is taken against that file
             # (physically next to it, else through its virtual directory), so only containment is asserted for it
